@@ -68,13 +68,16 @@ class Routing:
         from frappy.logging import RemoteLogHandler
         self.inj = lineinject.LineInjector(RemoteLogHandler.set_conn_level, RemoteLogHandler.handle, name='c20-inject', instructions=True)
 
-    def make_node(self, nmod):
+    def make_node(self, nmod, hidden=()):
         self.k += 1
         root = self.mlzlog.MLZLogger(f'c20root{self.k}')
         root.setLevel(10)
         nodelog = root.getChild('n')
         self.init_remote_logging(nodelog)
         cfg = {f'mod{i}': {'cls': self.Readable, 'description': 'x'} for i in range(nmod)}
+        for i in range(nmod):
+            if hidden and hidden[i % len(hidden)]:
+                cfg[f'mod{i}']['export'] = False      # a hidden module (io, helper): remote logging works for it like for any other
         node = self.nodes.Node(cfg, log=nodelog).build()
         return node
 
@@ -82,7 +85,7 @@ class Routing:
         r = self.r
         nmod = rng.choice([1, 2, 3])
         nconn = rng.choice([1, 2, 3])
-        node = self.make_node(nmod)
+        node = self.make_node(nmod, [rng.random() < 0.3 for _ in range(nmod)])
         disp = node.dispatcher
         mods = [f'mod{i}' for i in range(nmod)]
         conns = []
